@@ -160,11 +160,11 @@ func weights(m map[string]int) []string {
 var profC18 = &profile{
 	property: "C18", name: "accounting",
 	ops: weights(map[string]int{
-		kOpen: 9, kOpenConfirm: 6, kOpenDowngrade: 4, kClose: 4, kLock: 5, kLocku: 1, kLockt: 1, kReleaseLockowner: 2,
+		kOpen: 9, kOpenConfirm: 5, kOpenDowngrade: 5, kClose: 3, kLock: 9, kLocku: 1, kLockt: 1, kReleaseLockowner: 2,
 		kRead: 3, kWrite: 3, kSetattr: 1, kRemove: 2, kLookup: 1, kPutfh: 3,
-		kSetclientid: 2, kSetclientidConfirm: 3, kRenew: 2, "advance": 3, "vanish": 1, "release": 6, "retx": 1,
+		kSetclientid: 3, kSetclientidConfirm: 4, kRenew: 1, "advance": 4, "vanish": 1, "release": 6, "retx": 1,
 	}),
-	minSteps: 25, maxSteps: 90, devPct: 12, parkPct: 15, warmPct: 90, confirmPct: 85, sharedLO: true,
+	minSteps: 30, maxSteps: 100, devPct: 10, parkPct: 15, warmPct: 90, confirmPct: 85, sharedLO: true,
 	nontrivial: func(ev, labels map[string]int) bool {
 		return (ev["open_upgrade"] > 0 || ev["downgrade"] > 0) && ev["lock_owner_cloned_share"] > 0 && (ev["reclaim_by_expiry"] > 0 || ev["reclaim_by_reregistration"] > 0)
 	},
